@@ -157,6 +157,8 @@ pub fn c13(ctx: &mut Ctx) -> (u64, String) {
             pair_bfs(ctx, l, *mode);
         }
     }
+    ctx.sample_run("set2", &["byte:E0", "byte:F0", "byte:7C", "byte:13", "byte:83"]);
+    ctx.sample_run("set1", &["byte:E0", "byte:B7", "byte:70", "byte:41"]);
     ctx.sample(json!({"set2": ["E0", "F0", "7C"], "set1": ["E0", "B7"], "reference": "both PrintScreen Up"}));
     ctx.sample(json!({"set2": ["13"], "set1": ["70"], "reference": "both Oem11 Down (JIS Katakana/Hiragana)"}));
     (
